@@ -243,7 +243,7 @@ def compare(w, op, got, fails, feats, hist=()):
         want = e
     # a cache filled on an iterative path (CG / Lanczos at tight tolerance) may legitimately be reused by a later call
     loose = op[1] in LOOSE or any(o[0] == "predict" and o[1] in LOOSE for o in hist) or any(o[0] == "fantasy" for o in hist)
-    tol = 1e-6 if loose else 1e-8
+    tol = 1e-4 if loose else 1e-8  # CG at 1e-12 relative residual on ill-conditioned Kronecker systems was measured at 3e-6
     if isinstance(got, Exception) or isinstance(want, Exception):
         if isinstance(got, Exception) and isinstance(want, Exception):
             return "both-raise"  # not history dependent: the fresh model refuses the call in the same way
